@@ -285,7 +285,7 @@ type Req struct {
 	SelPI   bool    `json:"sel_page_info"`
 	SelTC   bool    `json:"sel_total_count"`
 	// spelling: pass arguments as variables instead of literals; explicit null for absent ones
-	Vars      bool `json:"vars"`
+	Vars       bool `json:"vars"`
 	NullAbsent bool `json:"null_absent"`
 }
 
@@ -302,22 +302,22 @@ type servedEdge struct {
 }
 
 type servedObs struct {
-	Panic    string       `json:"panic,omitempty"`
-	Status   int          `json:"status"`
-	Body     string       `json:"body"`
-	Errors   []string     `json:"errors,omitempty"`
-	NullData bool         `json:"null_data,omitempty"`
-	Edges    []servedEdge `json:"edges"`
-	HasPI    bool         `json:"has_page_info"`
-	HasPrev  bool         `json:"has_prev"`
-	HasNext  bool         `json:"has_next"`
-	Start    string       `json:"start"`
-	End      string       `json:"end"`
-	TC       *int         `json:"total_count"`
-	AllCalls int          `json:"all_calls"`
-	TCCalls  int          `json:"tc_calls"`
-	WinCalls []getterCall `json:"win_calls"`
-	Malformed string      `json:"malformed,omitempty"`
+	Panic     string       `json:"panic,omitempty"`
+	Status    int          `json:"status"`
+	Body      string       `json:"body"`
+	Errors    []string     `json:"errors,omitempty"`
+	NullData  bool         `json:"null_data,omitempty"`
+	Edges     []servedEdge `json:"edges"`
+	HasPI     bool         `json:"has_page_info"`
+	HasPrev   bool         `json:"has_prev"`
+	HasNext   bool         `json:"has_next"`
+	Start     string       `json:"start"`
+	End       string       `json:"end"`
+	TC        *int         `json:"total_count"`
+	AllCalls  int          `json:"all_calls"`
+	TCCalls   int          `json:"tc_calls"`
+	WinCalls  []getterCall `json:"win_calls"`
+	Malformed string       `json:"malformed,omitempty"`
 }
 
 func gqlString(s string) string {
@@ -504,12 +504,12 @@ func decodeFull(s string) (c cur, ok bool, panicked string) {
 }
 
 var errClasses = map[string]string{
-	"The `first` argument cannot be negative.":                 "first-negative",
-	"You cannot provide both `first` and `last` arguments.":    "both",
-	"The `last` argument cannot be negative.":                  "last-negative",
+	"The `first` argument cannot be negative.":                "first-negative",
+	"You cannot provide both `first` and `last` arguments.":   "both",
+	"The `last` argument cannot be negative.":                 "last-negative",
 	"You must provide either the `first` or `last` argument.": "neither",
-	"Invalid after cursor.":                                    "invalid-after",
-	"Invalid before cursor.":                                   "invalid-before",
+	"Invalid after cursor.":                                   "invalid-after",
+	"Invalid before cursor.":                                  "invalid-before",
 }
 
 func sortedInts(m map[int]bool) []int {
